@@ -12,7 +12,9 @@
 (* One loop pass = Poll (latch the ready descriptors: epoll latches the record block, select the        *)
 (* descriptor number) ; for every latched entry NextFd (copy the subscriber list) ; for every           *)
 (* element of the copy Sub (fire or skip) ; a fired callback runs a script of operations on ANY event   *)
-(* (CbOp ... CbReturn) ; FinishFd ; EndPass.                                                            *)
+(* (CbOp ... CbReturn) ; FinishFd ; EndPass.  A one-shot timer armed by the scenario is due at the     *)
+(* next poll; its callback (TimerCb ... CbReturn, same operation vocabulary) runs after Poll and        *)
+(* before any descriptor is served, as handleExpiredTimers() does in both loops.                        *)
 (*                                                                                                      *)
 (* The order in which latched descriptors are served is left open (the statement does not fix it).     *)
 (* The subscribers of ONE descriptor are served in the order in which they were enabled (subs is a       *)
@@ -37,7 +39,8 @@ CONSTANTS E,            \* event slots, e.g. {1,2,3}
           Backend,      \* "epoll" or "select"
           Fix6, Fix7, Fix8, OneShotLate,
           Masks,        \* subscribed-condition sets an event may have, e.g. {{"R"},{"W"},{"R","W"}}
-          OpKinds,      \* operation kinds usable in scripts / between passes: subset of {"en","dis","del","init","close"}
+          OpKinds,      \* operation kinds usable in scripts / between passes: subset of
+                        \* {"en","dis","del","init","reinit","close","arm"}
           MaxOps,       \* operations per callback
           MaxPass       \* loop passes
 
@@ -49,15 +52,18 @@ VARIABLES ev, recs, map, pool, ready, closed,
           run,          \* event whose callback is running (0 = none)
           opsLeft, passes,
           pins,         \* descriptors whose record is referenced by the dispatcher
+          timer,        \* the scenario's one-shot timer: "off" | "armed" (due at the next poll) | "due" (runs first in this pass)
+          bad,          \* this pass is the select pass that only found an invalid descriptor (EBADF)
           pollReady,    \* ghost: readiness at the last Poll
           cbEn,         \* ghost: is_enabled_ of the running event when its callback started
           viol          \* ghost: set of forbidden things that happened
 
-vars == <<ev, recs, map, pool, ready, closed, phase, rlist, cur, copy, run, opsLeft, passes, pins, pollReady, cbEn, viol>>
+vars == <<ev, recs, map, pool, ready, closed, phase, rlist, cur, copy, run, opsLeft, passes, pins, timer, bad, pollReady, cbEn, viol>>
 
 RID == FD                               \* pool blocks: never more than one live record per descriptor
 Conds == UNION Masks                    \* conditions that matter in this model
 NoCur == [fd |-> 0, mask |-> {}, rec |-> 0]
+TIMER == 1000                           \* value of run while the timer's callback is running
 DeadRec == [live |-> FALSE, fd |-> 0, ref |-> 0, subs |-> <<>>]
 Range(s) == {s[i] : i \in 1..Len(s)}
 Without(s, e) == SelectSeq(s, LAMBDA x : x # e)      \* vector::erase keeps the order of the others
@@ -98,29 +104,46 @@ HInit(h, e, fd) ==                                \* initialize(fd, same conditi
   LET v == h.ev[e] IN
   IF v.en \/ v.fd = fd THEN h
   ELSE LET h1 == RefFd(UnrefFd(h, v.fd), fd) IN [h1 EXCEPT !.ev[e].fd = fd]
+HReinit(h, e, fd, m, o) ==                        \* initialize(fd, conditions m, mode o) on an existing event object
+  LET v == h.ev[e] IN
+  IF v.en THEN h                                  \* refused while enabled
+  ELSE LET h1 == IF v.fd = fd THEN h ELSE RefFd(UnrefFd(h, v.fd), fd)
+       IN [h1 EXCEPT !.ev[e].fd = fd, !.ev[e].mask = m, !.ev[e].os = o]
 
 (* ------------------------------------------ operations ------------------------------------------- *)
-Op(k, e, fd) == [k |-> k, e |-> e, fd |-> fd]
+ROp(e, fd, m, o) == [k |-> "reinit", e |-> e, fd |-> fd, m |-> m, os |-> o]
+Op(k, e, fd) == [k |-> k, e |-> e, fd |-> fd, m |-> {}, os |-> FALSE]
 OpsOf(K) == {Op(k, e, 0) : k \in K \cap {"en", "dis", "del"}, e \in E}
             \cup {Op("init", e, fd) : e \in (IF "init" \in K THEN E ELSE {}), fd \in FD}
+            \cup {ROp(e, fd, m, o) : e \in (IF "reinit" \in K THEN E ELSE {}), fd \in FD, m \in Masks, o \in BOOLEAN}
             \cup {Op("close", 0, fd) : fd \in (IF "close" \in K THEN FD ELSE {})}
+            \cup {Op("arm", 0, 0) : x \in (IF "arm" \in K THEN {0} ELSE {})}
 Ops == OpsOf(OpKinds)                       \* usable inside callbacks
 MainOps == OpsOf(OpKinds \cup {"init"})     \* usable between passes (set-up needs initialize)
 
 \* what a harness may legally call: methods of live objects only; an event is not deleted from inside its own callback
-\* (TBOX_ASSERT(cb_level_ == 0)); a descriptor is closed once
+\* (TBOX_ASSERT(cb_level_ == 0)); a descriptor is closed once; the timer is armed when it is not pending
 Legal(op, runner) ==
-  CASE op.k \in {"en", "dis", "init"} -> ev[op.e].st = "alive"
+  CASE op.k \in {"en", "dis", "init", "reinit"} -> ev[op.e].st = "alive"
+    [] op.k = "arm" -> timer = "off"
     [] op.k = "del" -> ev[op.e].st = "alive" /\ op.e # runner
     [] op.k = "close" -> ~closed[op.fd]
 
 Apply(op) ==
-  CASE op.k = "en" -> SetHeap(HEnable(Heap, op.e)) /\ UNCHANGED <<ready, closed>>
-    [] op.k = "dis" -> SetHeap(HDisable(Heap, op.e)) /\ UNCHANGED <<ready, closed>>
-    [] op.k = "del" -> SetHeap(HDestroy(Heap, op.e)) /\ UNCHANGED <<ready, closed>>
-    [] op.k = "init" -> SetHeap(HInit(Heap, op.e, op.fd)) /\ UNCHANGED <<ready, closed>>
+  CASE op.k = "en" -> SetHeap(HEnable(Heap, op.e)) /\ UNCHANGED <<ready, closed, timer>>
+    [] op.k = "dis" -> SetHeap(HDisable(Heap, op.e)) /\ UNCHANGED <<ready, closed, timer>>
+    [] op.k = "del" -> SetHeap(HDestroy(Heap, op.e)) /\ UNCHANGED <<ready, closed, timer>>
+    [] op.k = "init" -> SetHeap(HInit(Heap, op.e, op.fd)) /\ UNCHANGED <<ready, closed, timer>>
+    [] op.k = "reinit" ->
+         \* the mode is recorded as given.  One case is left open because the statement is silent about it: an event that was
+         \* initialised as one-shot before and is re-initialised as persistent may stay one-shot (the code never clears
+         \* is_stop_after_trigger_) or become persistent
+         /\ \E o \in (IF ev[op.e].fd # 0 /\ ev[op.e].os /\ ~op.os THEN BOOLEAN ELSE {op.os}) :
+               SetHeap(HReinit(Heap, op.e, op.fd, op.m, o))
+         /\ UNCHANGED <<ready, closed, timer>>
+    [] op.k = "arm" -> timer' = "armed" /\ UNCHANGED <<ev, recs, map, pool, ready, closed>>
     [] op.k = "close" -> closed' = [closed EXCEPT ![op.fd] = TRUE] /\ ready' = [ready EXCEPT ![op.fd] = {}]
-                         /\ UNCHANGED <<ev, recs, map, pool>>
+                         /\ UNCHANGED <<ev, recs, map, pool, timer>>
 
 (* -------------------------------------------- initial -------------------------------------------- *)
 \* every slot holds a freshly created event (conditions and mode chosen freely), nothing initialised
@@ -129,20 +152,20 @@ Init ==
   /\ recs = [r \in RID |-> DeadRec] /\ map = [fd \in FD |-> 0] /\ pool = <<>>
   /\ ready = [fd \in FD |-> {}] /\ closed = [fd \in FD |-> FALSE]
   /\ phase = "idle" /\ rlist = {} /\ cur = NoCur /\ copy = <<>> /\ run = 0 /\ opsLeft = 0 /\ passes = 0
-  /\ pins = {} /\ pollReady = [fd \in FD |-> {}] /\ cbEn = FALSE /\ viol = {}
+  /\ pins = {} /\ timer = "off" /\ bad = FALSE /\ pollReady = [fd \in FD |-> {}] /\ cbEn = FALSE /\ viol = {}
 
 (* ---------------------------------- between passes (main level) ---------------------------------- *)
 Idle == phase = "idle" /\ run = 0 /\ viol = {}
-passVars == <<phase, rlist, cur, copy, run, opsLeft, passes, pins, pollReady, cbEn, viol>>
+passVars == <<phase, rlist, cur, copy, run, opsLeft, passes, pins, bad, pollReady, cbEn, viol>>
 
 NewEvent(e, m, o) ==                              \* Loop::newFdEvent in a free slot
   /\ Idle /\ ev[e].st # "alive"
   /\ ev' = [ev EXCEPT ![e] = [st |-> "alive", fd |-> 0, mask |-> m, os |-> o, en |-> FALSE]]
-  /\ UNCHANGED <<recs, map, pool, ready, closed>> /\ UNCHANGED passVars
+  /\ UNCHANGED <<recs, map, pool, ready, closed, timer>> /\ UNCHANGED passVars
 MainOp(op) == Idle /\ Legal(op, 0) /\ Apply(op) /\ UNCHANGED passVars
 SetReady(fd, S) ==                                \* the environment: bytes arrive / are consumed, buffer space fills / drains
   /\ Idle /\ ~closed[fd] /\ ready' = [ready EXCEPT ![fd] = S]
-  /\ UNCHANGED <<ev, recs, map, pool, closed>> /\ UNCHANGED passVars
+  /\ UNCHANGED <<ev, recs, map, pool, closed, timer>> /\ UNCHANGED passVars
 
 (* -------------------------------------------- one pass -------------------------------------------- *)
 Interest(fd) == IF map[fd] = 0 THEN {} ELSE UNION {ev[e].mask : e \in Range(recs[map[fd]].subs)}
@@ -153,26 +176,34 @@ RECURSIVE PinAll(_, _), UnpinAll(_, _)
 PinAll(h, S) == IF S = {} THEN h ELSE LET fd == CHOOSE x \in S : TRUE IN PinAll(RefFd(h, fd), S \ {fd})
 UnpinAll(h, S) == IF S = {} THEN h ELSE LET fd == CHOOSE x \in S : \A y \in S : x <= y IN UnpinAll(UnrefFd(h, fd), S \ {fd})
 
-Poll ==
+RECURSIVE DisAll(_, _)
+DisAll(h, S) == IF S = {} THEN h ELSE LET e == CHOOSE x \in S : TRUE IN DisAll(HDisable(h, e), S \ {e})
+
+Poll ==                                           \* epoll_wait() / select() returned
   /\ Idle /\ passes < MaxPass
-  /\ passes' = passes + 1
+  /\ passes' = passes + 1 /\ phase' = "pass" /\ pollReady' = ready
+  /\ timer' = IF timer = "armed" THEN "due" ELSE timer
   /\ IF Backend = "select" /\ BadFds # {}
-     THEN \* select() fails with EBADF: nothing is served in this pass, the events on invalid descriptors are disabled
-          /\ LET RECURSIVE DisAll(_, _)
-                 DisAll(h, S) == IF S = {} THEN h ELSE LET e == CHOOSE x \in S : TRUE IN DisAll(HDisable(h, e), S \ {e})
-             IN SetHeap(DisAll(Heap, UNION {Range(recs[map[fd]].subs) : fd \in BadFds}))
-          /\ UNCHANGED <<phase, rlist, pins, pollReady>>
+     THEN \* select() fails with EBADF: no descriptor is served in this pass (timers still run); at its end the events on
+          \* invalid descriptors are disabled (removeInvalidFds)
+          bad' = TRUE /\ rlist' = {} /\ pins' = pins /\ UNCHANGED <<ev, recs, map, pool>>
      ELSE LET L == {fd \in FD : ~closed[fd] /\ (ready[fd] \cap Interest(fd)) # {}} IN
+          /\ bad' = FALSE
           /\ rlist' = {[fd |-> fd, mask |-> ready[fd] \cap Interest(fd), rec |-> IF Backend = "epoll" THEN map[fd] ELSE 0] : fd \in L}
-          /\ phase' = "pass" /\ pollReady' = ready
+          \* the epoll loop takes its references before anything else runs in the pass (timers included)
           /\ IF Backend = "epoll" /\ Fix7 THEN pins' = L /\ SetHeap(PinAll(Heap, L))
                                            ELSE pins' = pins /\ UNCHANGED <<ev, recs, map, pool>>
   /\ UNCHANGED <<ready, closed, cur, copy, run, opsLeft, cbEn, viol>>
 
+TimerCb ==                                        \* handleExpiredTimers(): the due timer's callback runs before any descriptor is served
+  /\ phase = "pass" /\ timer = "due" /\ run = 0 /\ cur = NoCur /\ viol = {}
+  /\ timer' = "off" /\ run' = TIMER /\ opsLeft' = MaxOps
+  /\ UNCHANGED <<ev, recs, map, pool, ready, closed, phase, rlist, cur, copy, passes, pins, bad, pollReady, cbEn, viol>>
+
 Flag(x) == viol' = viol \cup {x}
 
 NextFd(x) ==                                      \* serve the next latched descriptor
-  /\ phase = "pass" /\ cur = NoCur /\ run = 0 /\ viol = {} /\ x \in rlist
+  /\ phase = "pass" /\ cur = NoCur /\ run = 0 /\ viol = {} /\ timer # "due" /\ x \in rlist
   /\ rlist' = rlist \ {x}
   /\ IF Backend = "epoll"
      THEN IF ~recs[x.rec].live
@@ -186,7 +217,7 @@ NextFd(x) ==                                      \* serve the next latched desc
                /\ IF Fix6 THEN pins' = pins \cup {x.fd} /\ SetHeap(RefFd(Heap, x.fd))
                           ELSE UNCHANGED <<pins, ev, recs, map, pool>>
                /\ UNCHANGED viol
-  /\ UNCHANGED <<ready, closed, phase, run, opsLeft, passes, pollReady, cbEn>>
+  /\ UNCHANGED <<ready, closed, phase, run, opsLeft, passes, timer, bad, pollReady, cbEn>>
 
 \* onEvent(e): the event is called when it subscribed to one of the reported conditions
 Fires(e) == (ev[e].mask \cap cur.mask) # {}
@@ -200,7 +231,7 @@ Fire(e) ==
 Sub(e) ==                                         \* next element of the copy
   /\ cur # NoCur /\ run = 0 /\ viol = {} /\ copy # <<>> /\ e = Head(copy)
   /\ copy' = Tail(copy)
-  /\ UNCHANGED <<ready, closed, phase, rlist, cur, passes, pins, pollReady>>
+  /\ UNCHANGED <<ready, closed, phase, rlist, cur, passes, pins, timer, bad, pollReady>>
   /\ IF Fix6
      THEN IF ~recs[cur.rec].live
           THEN Flag("uaf-record") /\ UNCHANGED <<ev, recs, map, pool, run, opsLeft, cbEn>>     \* live list read from a parked block
@@ -214,23 +245,25 @@ Sub(e) ==                                         \* next element of the copy
 CbOp(op) ==                                       \* one operation of the running callback's script
   /\ run # 0 /\ opsLeft > 0 /\ viol = {} /\ Legal(op, run) /\ Apply(op)
   /\ opsLeft' = opsLeft - 1
-  /\ UNCHANGED <<phase, rlist, cur, copy, run, passes, pins, pollReady, cbEn, viol>>
+  /\ UNCHANGED <<phase, rlist, cur, copy, run, passes, pins, bad, pollReady, cbEn, viol>>
 CbReturn ==
   /\ run # 0 /\ viol = {} /\ run' = 0 /\ opsLeft' = 0 /\ cbEn' = FALSE
-  /\ IF OneShotLate /\ ev[run].os /\ ev[run].st = "alive" THEN SetHeap(HDisable(Heap, run)) ELSE UNCHANGED <<ev, recs, map, pool>>
-  /\ UNCHANGED <<ready, closed, phase, rlist, cur, copy, passes, pins, pollReady, viol>>
+  /\ IF OneShotLate /\ run \in E /\ ev[run].os /\ ev[run].st = "alive" THEN SetHeap(HDisable(Heap, run)) ELSE UNCHANGED <<ev, recs, map, pool>>
+  /\ UNCHANGED <<ready, closed, phase, rlist, cur, copy, passes, pins, timer, bad, pollReady, viol>>
 
 FinishFd ==
   /\ cur # NoCur /\ run = 0 /\ viol = {} /\ copy = <<>>
   /\ cur' = NoCur
   /\ IF Backend = "select" /\ Fix6 THEN pins' = pins \ {cur.fd} /\ SetHeap(UnrefFd(Heap, cur.fd))
                                     ELSE UNCHANGED <<pins, ev, recs, map, pool>>
-  /\ UNCHANGED <<ready, closed, phase, rlist, copy, run, opsLeft, passes, pollReady, cbEn, viol>>
+  /\ UNCHANGED <<ready, closed, phase, rlist, copy, run, opsLeft, passes, timer, bad, pollReady, cbEn, viol>>
 EndPass ==
-  /\ phase = "pass" /\ cur = NoCur /\ rlist = {} /\ run = 0 /\ viol = {}
-  /\ phase' = "idle" /\ pins' = {} /\ SetHeap(UnpinAll(Heap, pins))
+  /\ phase = "pass" /\ cur = NoCur /\ rlist = {} /\ run = 0 /\ viol = {} /\ timer # "due"
+  /\ phase' = "idle" /\ pins' = {} /\ bad' = FALSE
+  /\ IF bad THEN SetHeap(DisAll(Heap, UNION {Range(recs[map[fd]].subs) : fd \in {f \in FD : closed[f] /\ map[f] # 0}}))   \* removeInvalidFds()
+            ELSE SetHeap(UnpinAll(Heap, pins))
   /\ pollReady' = [fd \in FD |-> {}]
-  /\ UNCHANGED <<ready, closed, rlist, cur, copy, run, opsLeft, passes, cbEn, viol>>
+  /\ UNCHANGED <<ready, closed, rlist, cur, copy, run, opsLeft, passes, timer, cbEn, viol>>
 
 (* named top-level disjuncts (TLC prints coverage per name) *)
 DoMainOp == \E op \in MainOps : MainOp(op)
@@ -238,7 +271,7 @@ DoSetReady == \E fd \in FD, S \in SUBSET Conds : SetReady(fd, S)
 DoNextFd == \E x \in rlist : NextFd(x)
 DoSub == \E e \in E : Sub(e)
 DoCbOp == \E op \in Ops : CbOp(op)
-Next == Poll \/ DoMainOp \/ DoSetReady \/ DoNextFd \/ DoSub \/ DoCbOp \/ CbReturn \/ FinishFd \/ EndPass
+Next == Poll \/ TimerCb \/ DoMainOp \/ DoSetReady \/ DoNextFd \/ DoSub \/ DoCbOp \/ CbReturn \/ FinishFd \/ EndPass
 Spec == Init /\ [][Next]_vars
 
 (* ------------------------------------------- properties ------------------------------------------- *)
@@ -247,14 +280,15 @@ TypeOK ==
                   /\ ev[e].os \in BOOLEAN /\ ev[e].en \in BOOLEAN
   /\ \A r \in RID : recs[r].live \in BOOLEAN /\ recs[r].fd \in FD \cup {0} /\ recs[r].ref \in Nat /\ Range(recs[r].subs) \subseteq E
   /\ \A fd \in FD : map[fd] \in RID \cup {0} /\ ready[fd] \subseteq Conds /\ closed[fd] \in BOOLEAN
-  /\ phase \in {"idle", "pass"} /\ run \in E \cup {0} /\ Range(copy) \subseteq E /\ pins \subseteq FD
+  /\ phase \in {"idle", "pass"} /\ run \in E \cup {0, TIMER} /\ Range(copy) \subseteq E /\ pins \subseteq FD
+  /\ timer \in {"off", "armed", "due"} /\ bad \in BOOLEAN
 
 \* a callback is invoked only on an event that exists and is enabled
-OnlyEnabledFires == "fire-disabled" \notin viol /\ (run # 0 => ev[run].st = "alive")
+OnlyEnabledFires == "fire-disabled" \notin viol /\ (run \in E => ev[run].st = "alive")
 \* ... and only when its descriptor was ready (at the poll of this pass) for a condition it subscribed to
 ReadyMatch == "fire-notready" \notin viol
 \* a one-shot event is already disabled when its callback runs
-OneShotDisabledInCallback == run # 0 /\ ev[run].os => ~cbEn
+OneShotDisabledInCallback == run \in E /\ ev[run].os => ~cbEn
 \* no step touches a deleted event or a record parked in the pool
 NoUseOfFreed == "uaf-event" \notin viol /\ "uaf-record" \notin viol
 \* no step throws
